@@ -121,8 +121,12 @@ GN = ["alpha_group", "beta"]
 
 def check_group(cs, gname, members, manifest_changes, agg, w):
     pm = cs.paths_manager
-    got = pm.get_named_paths(gname)
     want = [m["text"].strip() for m in members]
+    try:
+        got = pm.get_named_paths(gname)
+    except Exception as e:  # noqa
+        w["exc"] = f"{type(e).__name__}: {str(e)[:200]}"
+        return "get_named_paths-raises"
     if got is None or [g.strip() for g in got] != want:
         w["got"] = got
         w["want"] = want
@@ -172,6 +176,8 @@ def check_group(cs, gname, members, manifest_changes, agg, w):
     mp = os.path.join("inputs", "named_paths", gname, "manifest.json")
     with open(mp) as f:
         mj = json.load(f)
+    if not mj:
+        return "manifest-empty"
     if len(mj) != manifest_changes:
         w["manifest_entries"] = len(mj)
         w["content_changes"] = manifest_changes
